@@ -1,6 +1,6 @@
 (* Properties/C13.v — Trace aggregation is order-independent and right for every partial trace. *)
 From Coq Require Import List NArith ZArith Bool Permutation.
-From SV Require Import Model.Aggregator Gen.AggregatorGen Proofs.Aggregator Proofs.AggregatorLaunch.
+From SV Require Import Model.Aggregator Gen.AggregatorGen Proofs.Aggregator Proofs.AggregatorLaunch Proofs.AggregatorIdem.
 Import ListNotations.
 
 (* ---- Facts read from semantiva/trace/aggregation/aggregator.py on this run ---- *)
@@ -66,6 +66,16 @@ Proof.
   exists [dup1; dup2], [dup2; dup1]. split; [apply perm_swap|]. split; [reflexivity|].
   vm_compute. discriminate.
 Qed.
+
+(* ---- The verdicts depend on the SET of records: a record ingested again changes nothing, and a well-formed trace read
+        twice -- entirely, or a prefix (the file as it was a moment ago) and then the whole file, as a monitor re-reading a
+        growing file does -- leaves the aggregation state of reading it once ---- *)
+Theorem C13_ingest_idempotent : forall a x, ingest (ingest a x) x = ingest a x.
+Proof. exact ingest_idem. Qed.
+Theorem C13_rereading_is_harmless :
+  forall l n, wf l = true ->
+  ingest_all (l ++ l) = ingest_all l /\ ingest_all (firstn n l ++ l) = ingest_all l.
+Proof. intros l n W. unfold ingest_all. split; [apply reread_whole|apply reread_prefix]; exact W. Qed.
 
 (* ---- Finalising is idempotent ---- *)
 (* After any sequence of finalize_run / finalize_launch calls (each of which may write synthesized
@@ -218,6 +228,8 @@ Example ex_launch_hypotheses :
   filter (touches 2) launch_trace = run2_trace.
 Proof. repeat split; try reflexivity. repeat constructor. Qed.
 (* a reversed trace gives the same verdicts (instance of C13_order_independent) *)
+Example ex_reread : ingest_all (firstn 5 launch_trace ++ launch_trace) = ingest_all launch_trace.
+Proof. reflexivity. Qed.
 Example ex_reversed : ingest_all (rev launch_trace) = ingest_all launch_trace.
 Proof. reflexivity. Qed.
 (* finalize really writes into the aggregate (so idempotence is not trivial) *)
@@ -229,6 +241,8 @@ Print Assumptions C13_ingest_commutes.
 Print Assumptions C13_order_independent.
 Print Assumptions C13_interleaving_independent.
 Print Assumptions C13_order_independent_needs_wf.
+Print Assumptions C13_ingest_idempotent.
+Print Assumptions C13_rereading_is_harmless.
 Print Assumptions C13_finalize_idempotent.
 Print Assumptions C13_prefix_verdict.
 Print Assumptions C13_prefix_verdict_interleaved.
